@@ -323,6 +323,28 @@ def catLoop (t : α) : List α → α → Nat → Nat → Nat
 
 def catSelect (probs : List α) (t : α) : Nat := catLoop t probs 0 0 0
 
+/-- `bernoulli_neg_exp` (base.py), inner loop: `counter = 1; while rng.random() <= gamma / counter: counter += 1;
+return counter % 2` — the coin and the unread rest of the stream (`none`: stream exhausted) -/
+def coinLoop (gamma : α) : List α → Nat → Option (Bool × List α)
+  | [], _ => none
+  | u :: us, counter =>
+    if u ≤ gamma / (counter : α) then coinLoop gamma us (counter + 1) else some (counter % 2 == 1, us)
+
+/-- outer loop: `while gamma > 1: gamma -= 1; if not bernoulli_neg_exp(1, rng): return 0` -/
+def coinOuter : Nat → α → List α → Option (Bool × List α)
+  | 0, _, _ => none
+  | fuel + 1, gamma, us =>
+    if 1 < gamma then
+      match coinLoop 1 us 1 with
+      | none => none
+      | some (false, us') => some (false, us')
+      | some (true, us') => coinOuter fuel (gamma - 1) us'
+    else coinLoop gamma us 1
+
+/-- `bernoulli_neg_exp(gamma, rng)` for `gamma >= 0` as a function of the uniform stream -/
+def bernoulliNegExp (gamma : α) (us : List α) (fuel : Nat := 100000) : Option (Bool × List α) :=
+  coinOuter fuel gamma us
+
 /-- `Binary.randomise`: the returned indicator (false = value0, true = value1) -/
 def binaryFlip (eps delta u : α) (ind : Bool) : Bool :=
   let x := u * (Transc.exp eps + 1)
